@@ -227,6 +227,31 @@ def run(tier, seed):
         ob3["replay_path"] = pth
         ob3["replay"] = {"path": pth, "outcome": "model-only", "message": "term, vote and record length for the index file"}
     obligations.append(ob3)
+    # the level async-raft sees: FileStore::{save_hard_state, get_initial_state} on top of the real index manager handler
+    from . import c05store
+    ob4 = c05store.run(tier, seed)
+    ops4 = ob4.pop("_ops", None)
+    import os as _os
+    if not _os.environ.get("VERIF_NO_NATIVE"):
+        from .common import native_scenarios
+        if ob4.get("verdict") == "violation" and ops4:
+            rr = native_scenarios("C05", "violation", ["filestore_hard_state"], ob4["message"], {"obligation": ob4["harness"], "model": ob4.get("counterexample"), "ops": ops4})
+            ob4["replay_path"] = rr["path"]
+            ob4["replay"] = {"path": rr["path"], "outcome": rr["outcome"], "message": rr["message"]}
+            if rr["outcome"] != "reproduced":
+                ob4.update({"verdict": "inconclusive", "message": "engine-S counterexample (%s) did not reproduce on a real node's FileStore (%s %s)" % (ob4["message"], rr["outcome"], rr["message"])})
+            else:
+                ob4["message"] = "%s [real node, through RaftStorage::save_hard_state / get_initial_state: %s]" % (ob4["message"], rr["message"][:300])
+        elif ob4.get("verdict") == "discharged":
+            sample = [{"op": "save-hard-state", "term": 4, "vote": 3}, {"op": "save-hard-state", "term": 5, "vote": None}, {"op": "save-member", "member": [1, 2]},
+                      {"op": "save-hard-state", "term": 5, "vote": 2}]
+            nv = native_scenarios("C05", "validate", ["filestore_hard_state"], "", {"ops": sample})
+            info["translator_validation_filestore"] = {"outcome": nv["outcome"], "message": nv["message"], "path": nv["path"]}
+            if nv["outcome"] != "passed":
+                ob4.update({"verdict": "inconclusive", "message": "the obligation is discharged but a real node's FileStore breaks it on a sampled history: %s" % nv["message"]})
+    elif ob4.get("verdict") == "violation":
+        pass
+    obligations.append(ob4)
     info["wall_s"] = round(time.time() - t0, 1)
     return {"obligations": obligations, "info": info}
 
